@@ -280,9 +280,9 @@ def install(spec: Spec):
 
     spec.fn('ReentrantLock.__aenter__', file=S, qual='ReentrantLock.__aenter__', is_async=True, params={'self': 'ReentrantLock'}, returns='ReentrantLock',
             requires=[('in_loop', 'loop_running()', [])],
-            modifies=[('_depth', 'self'), ('_semaphore', 'self'), ('_loop', 'self'), ('sem_value', '*')], ghost_modifies=['permits_held'],
+            modifies=[('_depth', 'self'), ('_semaphore', 'self'), ('_loop', 'self'), ('sem_value', '*'), ('sem_loop', '*')], ghost_modifies=['permits_held'],
             ctx_modifies=['holds_global_lock'],
-            callsites={'self._get_semaphore().acquire': {'model': lock_acquire_model, 'writes': ['sem_value'], 'ghost_writes': ['permits_held'], 'suspends': True}},
+            callsites={'self._get_semaphore().acquire': {'model': lock_acquire_model, 'writes': ['sem_value', 'sem_loop'], 'ghost_writes': ['permits_held'], 'suspends': True}},
             ensures=[('holds', "ctx('holds_global_lock')", ['C06']),
                      ('reentrant', "implies(old(ctx('holds_global_lock')), self._depth == old(self._depth) + 1 and permits_held == old(permits_held))", ['C06']),
                      ('acquired', "implies(not old(ctx('holds_global_lock')), self._depth == 1 and permits_held == old(permits_held) + 1)", ['C06']),
@@ -395,7 +395,9 @@ def install(spec: Spec):
                        'event.event_result_update': {'pre': pe_pending_result_pre}},
             raises_tags=['C01', 'C03', 'C11', 'C15'],
             exits_ensure=[('entered_once', 'processed == old(processed) + [event]', ['C01'])],
-            ensures=[('one_wal_append', 'wal_calls == old(wal_calls) + 1', ['C17']),
+            ensures=[('completion_propagated_to_parent', "forall(lambda p: implies(event.event_parent_id is not None and p.event_id == event.event_parent_id and len(p.event_results) > 0 and "
+                                                          "all_results_terminal(p) and children_completed(p), signalled(p)), 'BaseEvent')", ['C03', 'C13']),
+                     ('one_wal_append', 'wal_calls == old(wal_calls) + 1', ['C17']),
                      ('history_bound', 'implies(self.max_history_size is not None and self.max_history_size > 0, len(self.event_history) <= self.max_history_size)', ['C13'])],
             raises=PE_RAISES)
     spec.methods[('EventBus', 'process_event')] = 'EventBus.process_event'
@@ -408,7 +410,7 @@ def install(spec: Spec):
             params={'self': 'EventBus', 'event': 'opt[BaseEvent]', 'timeout': 'opt[real]', 'wait_for_timeout': 'real'}, returns='opt[BaseEvent]',
             requires=[STARTED, LOCK_INV, SERIAL], assume_asserts=['self._on_idle and self.event_queue'], interference='runloop',
             modifies=[('q_items', '*'), ('q_unfinished', '*'), ('ev_set', '*'), ('task_done', '*'), ('task_cancel_requested', '*'), ('_depth', '*'),
-                      ('_semaphore', '*'), ('_loop', '*'), ('sem_value', '*'), ('g$global_lock', '*'), ('event_results', '*'), ('status', '*'), ('result', '*'), ('error', '*'),
+                      ('_semaphore', '*'), ('_loop', '*'), ('sem_value', '*'), ('sem_loop', '*'), ('g$global_lock', '*'), ('event_results', '*'), ('status', '*'), ('result', '*'), ('error', '*'),
                       ('started_at', '*'), ('completed_at', '*'), ('_handler_completed_signal', '*'), ('event_processed_at', '*'), ('_event_completed_signal', '*'), ('event_history', '*')],
             ghost_modifies=['dequeued', 'processed', 'task_done_calls', 'permits_held', 'invoked', 'eh_calls', 'wal_calls', 'wal_lines', 'wal_opens', 'cancel_walk_calls'],
             callsites={'self.event_queue.task_done': {'model': task_done_model, 'writes': ['q_unfinished'], 'ghost_writes': ['task_done_calls']}},
@@ -455,7 +457,7 @@ def install(spec: Spec):
     spec.fn('EventBus._run_loop', file=S, qual='EventBus._run_loop', is_async=True, params={'self': 'EventBus'}, returns='NoneType', interference='runloop',
             requires=[STARTED, SERIAL], ctx_modifies=['holds_global_lock', 'inside_handler', 'current_event', 'current_handler_id'],
             modifies=[('_is_running', 'self')] + [('q_items', '*'), ('q_unfinished', '*'), ('ev_set', '*'), ('task_done', '*'), ('task_cancel_requested', '*'), ('_depth', '*'),
-                      ('_semaphore', '*'), ('_loop', '*'), ('sem_value', '*'), ('g$global_lock', '*'), ('event_results', '*'), ('status', '*'), ('result', '*'), ('error', '*'),
+                      ('_semaphore', '*'), ('_loop', '*'), ('sem_value', '*'), ('sem_loop', '*'), ('g$global_lock', '*'), ('event_results', '*'), ('status', '*'), ('result', '*'), ('error', '*'),
                       ('started_at', '*'), ('completed_at', '*'), ('_handler_completed_signal', '*'), ('event_processed_at', '*'), ('_event_completed_signal', '*'), ('event_history', '*')],
             ghost_modifies=['dequeued', 'processed', 'task_done_calls', 'permits_held', 'invoked', 'eh_calls', 'wal_calls', 'wal_lines', 'wal_opens', 'cancel_walk_calls'],
             callsites={'self.step': {'pre': runloop_step_pre}, 'self._on_idle.set': {'pre': idle_set_pre}},
